@@ -24,6 +24,9 @@ def run_property(prop: str, tier: str, seed: int, only_keys: set[str] | None = N
     prog = Program(extra=(tier == 'thorough'))
     ctx = RuleCtx(prop, prog, tier)
     mod = importlib.import_module(f'sa.rules.{prop.lower()}')
+    ctx.stats['program'] = {'modules_parsed': len(prog.modules), 'functions': len(prog.all_functions(src_only=False)),
+                            'classes': len(prog.all_classes(src_only=False)),
+                            'constructs_renormalised_against_reference': getattr(prog, 'alpha_renamed', 0)}
     mod.run(ctx)
     extra = {}
     if tier == 'thorough' and hasattr(mod, 'thorough'):
